@@ -16,7 +16,7 @@ PID = "C15"
 CFG = ("INIT Init\nNEXT Next\n{inv}CONSTANTS\n G = {g}\n MinV = {a}\n"
        " MaxV = {b}\nCHECK_DEADLOCK FALSE\n")
 FCFG = ("INIT Init\nNEXT Next\nCONSTRAINT Emit\nCONSTANTS\n MaxFilters = {m}\n"
-        " Shapes = {{1, 2, 3}}\n NameClasses = {{\"plain\", \"spaces\", "
+        " Shapes = {{1, 2, 3, 4}}\n NameClasses = {{\"plain\", \"spaces\", "
         "\"unicode\", \"equals\", \"brackets\"}}\n Ids = {{0, 3, 17}}\n"
         "CHECK_DEADLOCK FALSE\n")
 
@@ -102,7 +102,11 @@ def _classify(job):
 SHAPES = {1: [(0.5, 0.5), (3.5, 0.5), (2.0, 4.25)],
           2: [(0, 0), (4, 0), (4, 4), (2, 1), (0, 4)],
           3: [(1e-7, 2.5e6), (3.25e-7, 2.5e6), (3.25e-7, 9.125e6),
-              (1e-7, 9.125e6)]}
+              (1e-7, 9.125e6)],
+          # a star with twelve vertices (more vertices than digits)
+          4: [(4.0, 2.0), (2.75, 2.5), (3.5, 3.5), (2.5, 2.75), (2.0, 4.0),
+              (1.5, 2.75), (0.5, 3.5), (1.25, 2.5), (0.0, 2.0), (1.25, 1.5),
+              (0.5, 0.5), (2.0, 1.25)]}
 NAMES = {"plain": "gate1", "spaces": "my gate 2", "unicode": "Größe µm²",
          "equals": "CD34=high", "brackets": "[live] cells"}
 
@@ -150,6 +154,9 @@ def _roundtrip(job):
                             "%s vs %s" % (o.unique_id, b[3])))
             if not np.array_equal(o.filter(qx, qy), cb):
                 out.append((".poly round trip alters a classification", ""))
+            elif not np.array_equal(np.asarray(o.points), b[4]):
+                out.append((".poly round trip alters the vertices (%d "
+                            "vertices)" % len(b[4]), ""))
         # the identifiers keep identifying the loaded filters: filters
         # registered afterwards (without requested identifier, and by
         # loading the file once more) take other identifiers
